@@ -110,7 +110,7 @@ class BranchIsometricResampler(_BranchResampler):
         else:
             new_distances = np.arange(0, total_length, self.distance)
             # keep endpoint
-            new_distances = np.concatenate([new_distances, total_length])
+            new_distances = np.concatenate([new_distances, [total_length]])
 
         # Interpolate the new points
         new_xyzr = np.zeros((n_nodes, 4), dtype=np.float32)
